@@ -79,6 +79,8 @@ type vfStore struct {
 	OpenErr   func(method, path string) error
 	CmdErr    func(method, path string) error
 	ListErr   func(method, path string) error
+	// ListAtErr, if set, is what ListAt of a lister object returns (with no entries) — the handler call itself succeeded.
+	ListAtErr func(path string) error
 	// ShortAt, if set, may cap a ReadAt at fewer bytes than asked for, with a nil error (a short
 	// DATA reply that is not the end of the file: unusual, legal for a peer). 0 = no cap.
 	ShortAt func(path string, off int64, n int) int
@@ -257,6 +259,11 @@ func (o *vfObj) WriteAt(p []byte, off int64) (int, error) {
 func (o *vfObj) ListAt(out []os.FileInfo, off int64) (int, error) {
 	if o.closed.Load() {
 		o.afterClose.Add(1)
+	}
+	if o.st.ListAtErr != nil {
+		if err := o.st.ListAtErr(o.path); err != nil {
+			return 0, err
+		}
 	}
 	if off >= int64(len(o.list)) {
 		return 0, io.EOF
